@@ -24,6 +24,11 @@ def check(ix, rep):
     for m_ in M_.standard_monitors(ix):
         if m_.mode == 'online':
             step.check_step(ix, rep, m_)
+    # the spec forest is written only where it is built; the name tables of two specifications are two objects
+    rep.floor('writers of ast.specs', store.check_spec_forest_writers(ix, rep), 3)
+    from sa.rules import globals as _G12
+    _G12.fixture_selfcheck(rep)
+    rep.floor('syntax and specification modules scanned for shared state', _G12.run_global(ix, rep, prefix='rtamt.syntax') + _G12.run_global(ix, rep, prefix='rtamt.spec'), 40)
     no = ownrule.run(ix, rep)
     rep.floor('functions in the ownership analysis', no, 250)
     explanation = (
